@@ -258,6 +258,25 @@ def rule_barrier(ctx: Ctx) -> None:  # noqa: C901
                     f"`{norm(c)[:70]}` stores results from a done-callback ({writers[0].name if writers else ''}): result() returns to the waiting driver BEFORE the callbacks of the future run, "
                     "so the barrier after a generation does not cover the store - the next generation (and the caller of map) can see elements missing", "callback not resolved", key=f"callback {norm(c.args[0])[:40]}")
     ctx.add("2-barrier", RUN, "", True, f"{n_cb} done-callback registration(s) examined", key="callback-scan")
+    # the pending work of a generation is filed under the FUNCTION (or its output name, which is unique in a pipeline) - `__name__`
+    # is not unique (the same callable wrapped twice, two lambdas): two functions of one generation then share a slot, and the first
+    # is post-processed with the second one's futures
+    by_name = []
+    for f in P.functions_in(RUN):
+        for x in walk_no_nested(f.node):
+            keys_ = []
+            if isinstance(x, ast.DictComp):
+                keys_.append(x.key)
+            if isinstance(x, ast.Subscript):
+                keys_.append(x.slice)
+            if isinstance(x, ast.Dict):
+                keys_ += [k for k in x.keys if k is not None]
+            for k in keys_:
+                if isinstance(k, ast.Attribute) and k.attr in ("__name__", "__qualname__"):
+                    by_name.append((f, x, k))
+    ctx.add("2-barrier", by_name[0][0] if by_name else RUN, by_name[0][1] if by_name else "", not by_name, "no table of the map driver is keyed by a function's __name__" if not by_name else
+            f"`{norm(by_name[0][1])[:70]}` files per-function state under `{norm(by_name[0][2])}`: names are not unique among the functions of a pipeline (one callable wrapped twice, lambdas) - "
+            "two functions of a generation share one entry and one of them is processed with the other's tasks (wrong values in the parent-written storage)", key="not-keyed-by-name")
     for q, res in ((f"{RUN}._process_task", "_result"), (f"{RUN}._process_task_async", "_result_async")):
         f = P.func(q)
         d = Defs(f)
